@@ -28,6 +28,7 @@ def r1(cx):
 @rule("C02", "C02.R2", "flush ordering: table, value log, manifest on disk before memtable/WAL are released")
 def r2(cx):
     rule_flush_ordering(cx)
+    rule_tables_fsynced_before_install(cx)
     cleanup_bounds(cx)
 
 
